@@ -3,21 +3,28 @@ import MindsVerif.Lemmas.RouteModel
 /-!
 # C10 — every table and model is routed to the place its name resolves to
 
-Model: `MindsVerif/Model/Route.lean` (constructor normalisation, both resolvers, `get_predictor`,
-`get_query_info`, `check_single_integration`, `prepare_integration_select` over the walker's view of
-a tree).  The full statement has four clauses.  Clauses (i) and (iv) hold for all inputs since commit
-b8a8b6b (`C10_resolvers`, `C10_model_join`; the resolver before that commit is kept as
-`resolveJoinOld` with `C10_regression_*` examples).  Clauses (ii) and (iii) are false on the current
-tree (witnesses below, reproduced on the real planner by `tools/props/c10.py`) and are proved as
-`C10_partial_*` under explicit decidable hypotheses.
-
-* T10.1 `C10_case_insensitive`, `C10_catalog_*` : `resolve_database_table` depends only on the
-  lower-cased parts; names vs dicts, letter case of catalog names, `None` vs `[]`, list vs legacy
-  dict give the *same* catalog (equality of the constructor's result).
-* T10.2 `C10_resolvers`, `C10_resolvers_catalog` (all inputs; default namespace must be a known database), regression examples 1, 2, 6.
-* T10.3 `C10_partial_stripped`, `C10_partial_pushdown`, witnesses 3, 5.
-* T10.4 `C10_model_version`, `C10_model_noversion`, `C10_model_step_simple`, `C10_model_case`,
-  `C10_model_join`, regression example 4.
+Model: `MindsVerif/Model/Route.lean` — the constructor's normalisation, `resolve_database_table` (`resolveSimple`) and
+`PlanJoinTablesQuery.resolve_table` (`resolveTable`, transcribed on its own from plan_join.py, with its aliases and
+bare-name flag), `get_predictor`, `get_query_info`, both `check_single_integration`s with the CTE-capture guard,
+`prepare_integration_select` over the walker's view of a tree (which children a node has, in which role and order, is
+input: the harness probes / transcribes `query_traversal` and the `plan` / `strip` streams check it).
+The full statement has four clauses.
+* (i) `C10_resolvers`, `C10_resolvers_catalog`, `C10_resolvers_same` — proved for all inputs: the two Python resolvers
+  are two functions; their independent transcriptions agree on every identifier operand (a proof by cases, since the
+  models differ in shape), and a join operand is fetched from where `resolve_database_table` sends its name (under
+  `defaultOk`: the default namespace is a known database — `C10_regression_6` shows why).  What `resolve_table` reports
+  besides: `C10_resolve_table_bare`, `C10_resolve_table_aliases`, `C10_resolve_table_sub`.
+* (ii) `C10_partial_pushdown` under `skipLeafOnly` (checked on every generated tree at run time; `C10_pushdown_full_false`
+  is about arbitrary `Node` trees: `C10_regression_3`).
+* (iii) `C10_partial_stripped`, `C10_stripped_exact` (`C10_witness_5`: a doubled qualifier keeps one — by design).
+* (iv) `C10_model_join` (namespace = database the name resolves to; follows from (i)'s agreement) and the link to the
+  record: `C10_model_join_project`, `C10_model_join_project_default`; `C10_model_version`, `_noversion`, `_case`,
+  `C10_model_step_simple`; `C10_model_no_hidden_state` / `_versions_independent` hold by construction of the model
+  (a `map`) and are tied to the code by the `predseq` stream.
+* T10.1 `C10_case_insensitive`, `C10_catalog_*`: equality of the constructor's result for names vs dicts, letter case
+  (incl. the default namespace), `None` vs `[]`, list vs legacy dict.
+Regression examples (`C10_regression_*`) are about OLDER variants of the code (`resolveJoinOld`, a constructor that kept
+`default_namespace` as given, a walker with unvisited slots); every finding they document is repaired in /repo.
 -/
 namespace MindsVerif.Props.C10
 open MindsVerif.Route
@@ -94,9 +101,31 @@ every non-empty identifier -/
 theorem C10_resolvers : C10_resolvers_full := fun c parts hd hne =>
   route_of_resolver_eq resolveJoin c parts hd hne (resolveJoin_eq_simple c parts)
 
-/-- the two resolvers are the same function -/
+/-- `resolve_table` (model `resolveTable`, written from plan_join.py: `len(parts) > 1`, `parts[0]`, `pop(0)`, the
+sub-select exemption) and `resolve_database_table` (model `resolveSimple`, written from query_planner.py) are two
+functions; on every identifier operand they return the same (integration, remaining parts) -/
 theorem C10_resolvers_same (c : Catalog) (parts : List Name) : resolveJoin c parts = resolveSimple c parts :=
   resolveJoin_eq_simple c parts
+
+/-- the bare-name flag of `resolve_table` (consulted by the "is it a CTE?" test since 6dae0a8) -/
+theorem C10_resolve_table_bare (c : Catalog) (parts : List Name) (alias : Option (List Name)) (sub : Bool)
+    (ti : TableInfo) (h : resolveTable c parts alias sub = some ti) : ti.bareName = (parts.length == 1) :=
+  resolveTable_bare c parts alias sub ti h
+
+/-- the names under which columns may refer to the operand: the alias only, or every suffix of the written name -/
+theorem C10_resolve_table_aliases (c : Catalog) (parts : List Name) (alias : Option (List Name)) (sub : Bool)
+    (ti : TableInfo) (h : resolveTable c parts alias sub = some ti) :
+    ti.aliases = match alias with
+      | some a => [a.map lower]
+      | none => (List.range parts.length).map fun i => (parts.drop i).map lower :=
+  resolveTable_aliases c parts alias sub ti h
+
+/-- a sub-select operand is never refused, even without a default namespace -/
+theorem C10_resolve_table_sub (c : Catalog) (parts : List Name) (alias : Option (List Name)) :
+    (resolveTable c parts alias true).isSome = true := resolveTable_sub c parts alias
+
+example : resolveTable (mkCatalog ⟨some [.nm n!"int1", .nm n!"int2"], none, .none, some n!"mindsdb"⟩) [n!"INT1", n!"s", n!"t"] none false =
+    some ⟨some n!"int1", [n!"s", n!"t"], [[n!"int1", n!"s", n!"t"], [n!"s", n!"t"], [n!"t"]], false⟩ := by decide
 
 /-- `integrations=['int1','int2'], default_namespace='mindsdb'` -/
 def cat2 : Catalog := mkCatalog ⟨some [.nm n!"int1", .nm n!"int2"], none, .none, some n!"mindsdb"⟩
@@ -154,7 +183,9 @@ theorem C10_partial_stripped (db : Name) (names : List Name) (par : Par) (s : Sl
   obtain ⟨x, hx, rfl⟩ := List.mem_map.mp hy
   exact not_qualified_after_cutN db names x.2.2 x.1 x.2.1 (h x hx).1 (h x hx).2
 
-theorem C10_partial_stripped_today (db : Name) (par : Par) (s : Slot) (n : Node)
+/-- the special case `names = []` (no local name protects anything: the cut as it was before 1ea1207, and the cut of
+the join path's per-table selects, which have no aliases equal to the integration) -/
+theorem C10_partial_stripped_no_names (db : Name) (par : Par) (s : Slot) (n : Node)
     (h : ∀ x ∈ visitedIdents s n, doubleQual db x.1 x.2.1 = false) :
     ∀ y ∈ visitedIdents s (strip db [] par s n), qualifiedBy db y.1 y.2.1 = false :=
   C10_partial_stripped db [] par s n (fun x hx => ⟨h x hx, keepsLocal_of_not_mem db [] _ _ _ (by simp)⟩)
@@ -203,24 +234,25 @@ def caseQuery : Node :=
           (.cons .tgt (.func false (.cons .arg (.ident [n!"a"] false none) .nil)) .nil)))
         .nil))) .nil))
 
-/-- the whole query is sent to `int1` although it mentions `int2.t2` -/
-theorem C10_witness_3 :
+/-- regression / model level: on a tree with a sub-query in a skipped slot the whole query is sent to `int1` although it
+mentions `int2.t2` (on the code: CASE operand until a58885a, `Function.from_arg` until 674e01f) -/
+theorem C10_regression_3 :
     (planTop false [] cat2 [] caseQuery).map (·.map Step.integration) = some [n!"int1"] ∧
     [n!"int2", n!"t2"] ∈ allTables .arg caseQuery ∧
     resolveSimple cat2 [n!"int2", n!"t2"] = some (n!"int2", [n!"t2"]) := by decide
 
 theorem C10_pushdown_full_false : ¬ C10_pushdown_full := fun h => by
   cases hp : planTop false [] cat2 [] caseQuery with
-  | none => have := C10_witness_3.1; rw [hp] at this; exact absurd this (by decide)
+  | none => have := C10_regression_3.1; rw [hp] at this; exact absurd this (by decide)
   | some steps =>
     obtain ⟨i, hs, hall⟩ := h false [] cat2 [] caseQuery steps hp
-    have h1 := C10_witness_3.1
+    have h1 := C10_regression_3.1
     rw [hp, hs] at h1
     simp only [Option.map_some, List.map_cons, List.map_nil, Step.integration, Option.some.injEq,
       List.cons.injEq, and_true] at h1
-    rcases hall _ C10_witness_3.2.1 with ⟨hsk, _⟩ | ⟨integ, rest, hr, hcase⟩
+    rcases hall _ C10_regression_3.2.1 with ⟨hsk, _⟩ | ⟨integ, rest, hr, hcase⟩
     · exact absurd hsk (by decide)
-    · rw [C10_witness_3.2.2] at hr
+    · rw [C10_regression_3.2.2] at hr
       simp only [Option.some.injEq, Prod.mk.injEq] at hr
       rcases hcase with ⟨he, _⟩ | ⟨hpj, _⟩
       · rw [← hr.1, h1] at he; exact absurd he (by decide)
